@@ -1,46 +1,174 @@
+(* Line driver for the extracted Coq model: reads the same case lines as the Rust harness and prints
+   the same canonical outcome lines.  Only parsing of case lines and printing happens here. *)
 open Model
-let byte_of_int (i:int) : byte = Obj.magic i
-let int_of_byte (b:byte) : int = Obj.magic b
-let unhex s = let n = String.length s / 2 in List.init n (fun i -> byte_of_int (int_of_string ("0x" ^ String.sub s (2*i) 2)))
-let hex l = String.concat "" (List.map (fun b -> Printf.sprintf "%02x" (int_of_byte b)) l)
-let fld = function FType -> "type" | FNamespace -> "namespace" | FName -> "name" | FVersion -> "version" | FSubpath -> "subpath"
-let perr = function EScheme -> "Scheme" | EMissing f -> "Missing(" ^ fld f ^ ")" | EInvalidType -> "InvalidType" | EInvalidQualifier -> "InvalidQualifier" | EInvalidEscape -> "InvalidEscape"
-let pkerr = function PMissing f -> "PMissing(" ^ fld f ^ ")" | PParse e -> "Parse:" ^ perr e | PUnsupportedType -> "UnsupportedType"
-let qs q = String.concat ";" (List.map (fun (k,v) -> hex k ^ "=" ^ hex v) q)
-let show ty p canon = Printf.sprintf "O %s|%s|%s|%s|%s|%s|%s" (hex ty) (hex p.p_ns) (hex p.p_name) (hex p.p_ver) (qs p.p_quals) (hex p.p_sub) (hex canon)
-let split c s = if s = "" then [] else String.split_on_char c s
-let pairs s = List.map (fun kv -> match String.split_on_char '=' kv with [k;v] -> (unhex k, unhex v) | _ -> failwith "pair") (split ',' s)
-let pt i = List.nth all_ptypes i
+
+let byte_of_int (i : int) : byte = Obj.magic i
+let int_of_byte (b : byte) : int = Obj.magic b
+let rec int_of_pos = function XH -> 1 | XO p -> 2 * int_of_pos p | XI p -> 2 * int_of_pos p + 1
+let int_of_n = function N0 -> 0 | Npos p -> int_of_pos p
+
 let () =
-  try while true do
-    let line = input_line stdin in
-    let a = Array.of_list (String.split_on_char ' ' line) in
-    let g i = if i < Array.length a then a.(i) else "" in
-    let out = match a.(0) with
-      | "pg" -> (match parse_generic (unhex (g 1)) with Ok (t,p) -> show t p (format_generic t p) | Err e -> "E " ^ perr e)
-      | "pt" -> (match parse_typed (unhex (g 1)) with Ok (t,p) -> show (pt_name_x t) p (format_typed t p) | Err e -> "E " ^ pkerr e)
-      | "bg" | "bb" -> (match build_generic (a.(0) = "bb") (unhex (g 1)) (unhex (g 2)) (unhex (g 3)) (unhex (g 4)) (unhex (g 5)) (pairs (g 6)) with
-                 | None -> "QE" | Some (Ok (t,p)) -> show t p (format_generic t p) | Some (Err e) -> "E " ^ perr e)
-      | "bt" -> (match build_typed (pt (int_of_string (g 1))) (unhex (g 2)) (unhex (g 3)) (unhex (g 4)) (unhex (g 5)) (pairs (g 6)) with
-                 | None -> "QE" | Some (Ok (t,p)) -> show (pt_name_x t) p (format_typed t p) | Some (Err e) -> "E " ^ pkerr e)
-      | "qo" ->
-          let ops = List.map (fun o -> match String.split_on_char ':' o with
-             | ["i";k;v] -> QInsert (unhex k, unhex v) | ["r";k] -> QRemove (unhex k) | ["g";k] -> QGet (unhex k)
-             | ["c"] -> QClear | ["t"] -> QRetainNonEmpty | ["e";k;v] -> QEntryOrInsert (unhex k, unhex v) | _ -> failwith "qop") (split ';' (g 1)) in
-          let (q, outs) = List.fold_left (fun (q, acc) o -> let (q', r) = qstep q o in
-             (q', (match r with OUnit -> "u" | OErr -> "e" | OVal None -> "n" | OVal (Some v) -> "v:" ^ hex v) :: acc)) ([], []) ops in
-          String.concat ";" (List.rev outs) ^ "|" ^ qs q
-      | "cs" ->
-          let ops = List.map (fun o -> match String.split_on_char ':' o with
-             | ["i";k;v] -> CInsert (unhex k, unhex v) | ["w";k;v] -> CInsertRaw (unhex k, unhex v) | ["r";k] -> CRemove (unhex k) | _ -> failwith "cop") (split ';' (g 1)) in
-          let m = List.fold_left cstep [] ops in
-          let (pan, txt) = cs_text m in
-          qs (cs_sorted m) ^ "|" ^ (if pan then "P" else match txt with Ok t -> "T:" ^ hex t | Err _ -> "E")
-      | "ct" -> (match cs_parse (unhex (g 1)) with Err _ -> "E" | Ok m ->
-                   let (pan, txt) = cs_text m in qs (cs_sorted m) ^ "|" ^ (if pan then "P" else match txt with Ok t -> "T:" ^ hex t | Err _ -> "E"))
-      | "pn" -> (match ptfs (unhex (g 1)) with None -> "none" | Some t -> hex (pt_name_x t))
-      | "cn" -> let (p, c) = comb (pt (int_of_string (g 1))) (unhex (g 2)) in
-                hex p.p_ns ^ "|" ^ hex p.p_name ^ "|" ^ (match c with None -> "berr" | Some c -> hex c)
-      | _ -> "?" in
-    print_endline out
-  done with End_of_file -> ()
+  (* the Obj.magic conversion relies on the 256 constant constructors being numbered in order *)
+  for i = 0 to 255 do
+    if int_of_n (x_byte_to_N (byte_of_int i)) <> i then failwith "byte representation check failed"
+  done
+
+let unhex s =
+  if s = "-" then []
+  else List.init (String.length s / 2) (fun i -> byte_of_int (int_of_string ("0x" ^ String.sub s (2 * i) 2)))
+let h l = if l = [] then "-" else String.concat "" (List.map (fun b -> Printf.sprintf "%02x" (int_of_byte b)) l)
+let fld = function FType -> "type" | FNamespace -> "namespace" | FName -> "name" | FVersion -> "version" | FSubpath -> "subpath"
+let perr = function
+  | EScheme -> "Scheme" | EMissing f -> "Missing(" ^ fld f ^ ")" | EInvalidType -> "InvalidType"
+  | EInvalidQualifier -> "InvalidQualifier" | EInvalidEscape -> "InvalidEscape"
+let pkerr = function PMissing f -> "PMissing(" ^ fld f ^ ")" | PParse e -> "Parse:" ^ perr e | PUnsupportedType -> "UnsupportedType"
+let ferr = function FParse e -> "Parse:" ^ perr e | FConv -> "Conv" | FHook -> "Hook"
+let qs q = if q = [] then "-" else String.concat ";" (List.map (fun (k, v) -> h k ^ "=" ^ h v) q)
+let show tys p canon =
+  Printf.sprintf "O %s|%s|%s|%s|%s|%s|%s" (h tys) (h p.p_ns) (h p.p_name) (h p.p_ver) (qs p.p_quals) (h p.p_sub)
+    (match canon with Some c -> h c | None -> "!")
+let stop = function StopQE -> "QE" | StopCE -> "CE" | StopPanic -> "PANIC"
+let split c s = if s = "-" || s = "" then [] else String.split_on_char c s
+let pt i = List.nth x_all_ptypes i
+
+(* made -> text, given how to print the type, the error, and the canonical string of a value *)
+let show_made tyf errf canonf = function
+  | MPurl (t, p) -> show (tyf t) p (canonf t p)
+  | MErr e -> "E " ^ errf e
+  | MStop s -> stop s
+let csops s =
+  List.map (fun o -> match String.split_on_char '.' o with
+    | ["i"; k; v] -> CInsert (unhex k, unhex v) | ["w"; k; v] -> CInsertRaw (unhex k, unhex v) | ["r"; k] -> CRemove (unhex k)
+    | _ -> failwith "cop") (split '+' s)
+let bops tyf s =
+  List.map (fun o -> match String.split_on_char ':' o with
+    | ["N"; x] -> XName (unhex x) | ["S"; x] -> XNs (unhex x) | ["s"] -> XNoNs | ["V"; x] -> XVer (unhex x) | ["v"] -> XNoVer
+    | ["U"; x] -> XSub (unhex x) | ["u"] -> XNoSub | ["T"; x] -> XType (tyf x) | ["Q"; k; v] -> XQual (unhex k, unhex v)
+    | ["q"; k] -> XUnqual (unhex k) | ["z"] -> XClearQ | ["C"; c] -> XCs (csops c) | ["c"] -> XNoCs | ["R"; x] -> XRepo (unhex x)
+    | ["r"] -> XNoRepo | ["D"; k; v] -> XDirectIns (unhex k, unhex v) | ["E"; k] -> XDirectRem (unhex k)
+    | _ -> failwith ("bop " ^ o)) (split ',' s)
+
+(* the canonical string of a value of a given kind: format through the extracted functions *)
+let made_g a = match a with
+  | ("P" | "S" | "X") :: _ -> x_parse_g (unhex (List.nth a (List.length a - 1)))
+  | "B" :: "b" :: t :: n :: ops :: _ -> x_build_b (unhex t) (unhex n) (bops unhex ops)
+  | "B" :: _ :: t :: n :: ops :: _ -> x_build_g (unhex t) (unhex n) (bops unhex ops)
+  | _ -> failwith "case"
+let made_t a = match a with
+  | ("P" | "S" | "X") :: _ -> x_parse_t (unhex (List.nth a (List.length a - 1)))
+  | "B" :: _ :: t :: n :: ops :: _ -> x_build_t (pt (int_of_string t)) (unhex n) (bops (fun x -> pt (int_of_string x)) ops)
+  | _ -> failwith "case"
+
+let line_of_triple tyf errf fmtf (m, rest) =
+  match rest with
+  | None -> show_made tyf errf (fun _ _ -> None) m ^ " ## - ## -"
+  | Some ((c, re), rb) ->
+    let main = show_made tyf errf (fun _ _ -> c) m in
+    let re_s = match re with None -> "!" | Some m' -> show_made tyf errf fmtf m' in
+    let rb_s = show_made tyf errf fmtf rb in
+    main ^ " ## " ^ re_s ^ " ## " ^ rb_s
+
+(* canonical string of a re-parsed / re-built value: the model's format *)
+let fmt_g t p = x_format_g t p
+let fmt_t t p = x_format_t t p
+
+let qops s =
+  List.map (fun o -> match String.split_on_char ':' o with
+    | ["i"; k; v] -> QIns (unhex k, unhex v) | ["r"; k] -> QRem (unhex k) | ["g"; k] -> QGet (unhex k)
+    | ["m"; k; v] -> QGetMut (unhex k, unhex v) | ["c"; k] -> QHas (unhex k) | ["x"; k] -> QIdx (unhex k)
+    | ["X"; k; v] -> QIdxSet (unhex k, unhex v) | ["C"] -> QClear | ["t"] -> QRetNE | ["T"; k] -> QRetKeyNe (unhex k)
+    | ["M"; s] -> QRetMut (unhex s) | ["I"; s] | ["J"; s] -> QIterMut (unhex s)
+    | ["eo"; k; v] -> QEOrIns (unhex k, unhex v) | ["ew"; k; v] -> QEOrInsWith (unhex k, unhex v)
+    | ["em"; k; s; v] -> QEAndMod (unhex k, unhex s, unhex v) | ["ei"; k; v] -> QEInsert (unhex k, unhex v)
+    | ["er"; k] -> QERemove (unhex k) | ["eR"; k] -> QERemoveEntry (unhex k) | ["eG"; k; s] -> QEGetMut (unhex k, unhex s)
+    | ["l"] -> QLen | ["tr"; u] -> QTRepo (unhex u) | ["tg"] -> QTGet | ["tc"] -> QTHas | ["td"] -> QTDel
+    | ["tC"; c] -> QTCs (csops c) | ["tG"] -> QTCsGet | ["ke"; s] -> QKeyCmp (unhex s)
+    | _ -> failwith ("qop " ^ o)) (split ',' s)
+let ord_s = function Lt -> "lt" | Eq -> "eq" | Gt -> "gt"
+let qout = function
+  | XoU -> "u" | XoUV v -> "u:" ^ h v | XoE -> "e" | XoOpt None -> "n" | XoOpt (Some v) -> "v:" ^ h v
+  | XoB b -> if b then "t" else "f" | XoPanic -> "PANIC"
+  | XoVC (v, c) -> "v:" ^ h v ^ ":" ^ (if c then "c" else "nc")
+  | XoOcc2 (g, o) -> "o:" ^ h g ^ ":" ^ h o | XoVac -> "vac" | XoVacV v -> "vac:" ^ h v | XoOcc v -> "o:" ^ h v
+  | XoOccKV (k, v) -> "o:" ^ h k ^ "=" ^ h v
+  | XoLen (n, e) -> Printf.sprintf "l:%d:%s" (int_of_n n) (if e then "t" else "f")
+  | XoCs m -> "k:" ^ qs m
+  | XoKe l -> String.concat "/" (List.map (fun (e, c) -> (if e then "E" else "N") ^ ord_s c) l) ^ "."
+let cs_res (ents, r) =
+  qs ents ^ (match r with
+    | CsPanic -> "|P" | CsErr -> "|E"
+    | CsText (t, back) -> "|T:" ^ h t ^ "|" ^ (match back with Some m -> qs m | None -> "E"))
+let pairs s = List.map (fun kv -> match String.split_on_char '=' kv with [k; v] -> (unhex k, unhex v) | _ -> failwith "pair") (split ',' s)
+
+let fam_params s =
+  let c = match s.[0] with 'A' -> ConvAlways | 'F' -> ConvFail | 'C' -> ConvCustom | _ -> failwith "conv" in
+  let r = match s.[1] with 'L' -> TyLower | 'R' -> TyRaw | _ -> TyInvalid in
+  let hk = List.init (String.length s - 2) (fun i -> match s.[i + 2] with
+    | 'k' -> HkNothing | 'f' -> HkFail | 'n' -> HkClearName | 's' -> HkNs | 'v' -> HkNoVer | 'V' -> HkVer | 'u' -> HkSub
+    | 'e' -> HkEmptyQ | 'q' -> HkQual | 'm' -> HkBadCs | 'c' -> HkCs | 'N' -> HkNameX | 't' -> HkType2 | _ -> failwith "hook") in
+  (c, r, hk)
+let tyrep r t = match r with
+  | TyLower -> List.map (fun b -> let i = int_of_byte b in if i >= 65 && i <= 90 then byte_of_int (i + 32) else b) t
+  | TyRaw -> t
+  | TyInvalid -> List.map (fun c -> byte_of_int (Char.code c)) (List.init 8 (String.get "in valid"))
+
+let run_line line =
+  let a = String.split_on_char ' ' line in
+  match a with
+  | ("P" | "S" | "X" | "B") :: k :: _ ->
+    (match k with
+     | "g" | "s" | "b" | "o" -> line_of_triple (fun t -> t) perr (fun t p -> Some (fmt_g t p)) (made_g a)
+     | "t" -> line_of_triple x_pt_name pkerr (fun t p -> Some (fmt_t t p)) (made_t a)
+     | _ -> "SKIP")
+  | "K" :: rest ->
+    let rec cut acc = function "~" :: r -> (List.rev acc, r) | x :: r -> cut (x :: acc) r | [] -> failwith "~" in
+    let (l, r) = cut [] rest in
+    let kl = List.nth l 1 and kr = List.nth r 1 in
+    let cow k = k = "b" || k = "o" in
+    if kl <> kr && not (cow kl && cow kr) then "NA"
+    else
+      let res = if kl = "t" then x_cmp_t (fst (made_t l)) (fst (made_t r)) else x_cmp_g (fst (made_g l)) (fst (made_g r)) in
+      (match res with None -> "NA" | Some c -> (if c = Eq then "EQ " else "NE ") ^ ord_s c)
+  | ["Q"; ops] ->
+    let (q, outs) = x_qrun (qops ops) in
+    Printf.sprintf "%s|%s|%s|%d" (if outs = [] then "-" else String.concat "," (List.map qout outs)) (qs q) (qs (List.rev q)) (List.length q)
+  | ["F"; ps] -> (match x_from_iter (pairs ps) with Ok q -> Printf.sprintf "%s|%d" (qs q) (List.length q) | Err e -> "E " ^ perr e)
+  | ["C"; ops] -> cs_res (x_cs_ops (csops ops))
+  | ["c"; t] ->
+    (match x_cs_text (unhex t) with
+     | None -> "E"
+     | Some (r, dec) ->
+       let d = String.concat ";" (List.map (function Some b -> h b | None -> "x") dec) in
+       cs_res r ^ "|" ^ (if d = "" then "-" else d))
+  | ["T"; s] -> (match x_pt_from_str (unhex s) with None -> "none" | Some t -> h (x_pt_name t))
+  | ["N"; i; s] ->
+    let (p, r) = x_comb (pt (int_of_string i)) (unhex s) in
+    (match r with
+     | Err e -> Printf.sprintf "%s|%s|E %s" (h p.p_ns) (h p.p_name) (pkerr e)
+     | Ok ((p', cn), (ns2, name2)) ->
+       Printf.sprintf "%s|%s|%s|%s|%s|%s|%s" (h p.p_ns) (h p.p_name) (h p'.p_ns) (h p'.p_name) (h cn) (h ns2) (h name2))
+  | "H" :: fam :: rest ->
+    let (c, r, hk) = fam_params fam in
+    let res = match rest with
+      | ["P"; s] -> Some (x_fam_parse c r hk (unhex s))
+      | ["B"; t; n; ops] -> x_fam_build c r hk (unhex t) (unhex n) (bops unhex ops)
+      | _ -> failwith "family case" in
+    (match res with
+     | None -> "- ## QE"
+     | Some (log, out) ->
+       let l = String.concat "," (List.map (function CFromStr ty -> "F:" ^ h ty | CFinish (t, p) -> "H:" ^ h t ^ ":" ^ h p.p_name) log) in
+       (if l = "" then "-" else l) ^ " ## " ^
+       (match out with Err e -> "E " ^ ferr e | Ok (t, p) -> show (tyrep r t) p (x_fam_canon c r hk t p)))
+  | _ -> "SKIP"
+
+let () =
+  let out = Buffer.create (1 lsl 16) in
+  (try
+     while true do
+       let line = input_line stdin in
+       Buffer.add_string out (try run_line line with Stack_overflow -> "MODEL-STACK" | Failure m -> "MODEL-ERR " ^ m);
+       Buffer.add_char out '\n';
+       if Buffer.length out > 1 lsl 16 then (print_string (Buffer.contents out); Buffer.clear out)
+     done
+   with End_of_file -> ());
+  print_string (Buffer.contents out)
